@@ -257,3 +257,34 @@ def run(ctx):
                       "feature sets by different sub-commands" % "; ".join("%s: %s" % (sorted({u for u, _ in v}), v[0][1]) for v in shapes.values()))
     # every assembling unit must have its own init (R2 covers the closure through its creation site)
     ctx.finish_rule()
+
+    # ------------------------------------------------------------------ R4: which file is assembled
+    # check, compile, run and every re-check of watch judge *the file the command names*: the text handed to the assembler is read from the
+    # command line's path (a field of the parsed command, a capture of it, or a parameter handed down) - not from a path computed elsewhere
+    ctx.rule("C07.R4", "the assembled text is read from the path the command names", floor=3)
+    PASS_THROUGH = re.compile(r"(ops::deref::Deref>::deref|convert::AsRef<.*>>::as_ref|PathBuf::as_path|borrow::Borrow<.*>>::borrow|clone::Clone>::clone)$")
+    nread = 0
+    for n, f in sorted(prog.fns.items()):
+        if f.bkind != "fn" or not n.startswith("bin::"):
+            continue
+        for b, t, c in f.calls():
+            if not (c and re.search(r"std::fs::(read_to_string|read)$", c)):
+                continue
+            nread += 1
+            ctx.instance(1)
+            e = f.expr(t["args"][0], 14)
+            bad = None
+            for x in expr_walk(e):
+                if x[0] == "call" and not PASS_THROUGH.search(str(x[1])) and not str(x[1]).endswith("Parser::parse"):
+                    bad = "computed by `%s`" % short(str(x[1]))
+                    break
+                if x[0] == "arg" and f.d.get("defkind") == "Closure" and x[1] != 1:
+                    bad = "taken from the closure's own parameter `%s`" % x[2]
+                    break
+            ctx.oblig(bad is None, {"read in": short(n), "path": expr_str(e, 100)}, "command-line path (field / capture / parameter)")
+            if bad:
+                ctx.violation("source-path|%s" % short(n), sp_file_line(t.get("sp")),
+                              "`%s` reads the text it assembles from a path %s (`%s`), not from the path the command names: it can judge a different file than "
+                              "check/compile/run of the same command line do" % (short(n), bad, expr_str(e, 100)))
+    ctx.need(nread >= 3, "source reads in the command arms (found %d)" % nread)
+    ctx.finish_rule()
